@@ -892,63 +892,86 @@ fn config_checks(cx: &mut Ctx, c: &Case, built: &Option<Built>, err: &Option<Str
         Some(b) => (b.parts.accelerated, seq_sx(&verif::inner_literal_stages(&b.parts.hir).optimized)),
         None => (false, "inf".to_string()),
     };
-    // phase 1: the model's raw tree; the real smart constructors applied to it must give the real HIR
-    let reply0 = cx.drv.ask(&format!("c11.build {} {} {} {} {} -", cfg, pats, tr_sx, acc as u8, opt));
-    let mut nrm = "-".to_string();
-    let mut hir_ok = true;
-    let mut model_hir = String::new();
-    if let (Some(b), Some(rest)) = (built, reply0.strip_prefix("ok ")) {
-        let real_hir = to_sx(&b.parts.hir);
-        if let Some((_, raw)) = rest.split_once(" raw=") {
-            model_hir = rebuild_str(raw).map(|h| to_sx(&h)).unwrap_or_default();
-        }
-        hir_ok = model_hir == real_hir;
-        if !hir_ok && o.line_term().map_or(false, |l| l.is_crlf()) && !fixed {
-            // CRLF: the real code rebuilds the tree between the two passes; redo the model stepwise
-            if let Some(tr) = rebuild_str(&tr_sx) {
-                if let Ok(st) = model_strip(cx.drv, &tr, &[b'\r', b'\n']) {
-                    let w = cx.drv.ask(&format!("c11.wrap {} {}", cfg, to_sx(&st)));
-                    if let Some((_, h)) = w.split_once(" hir=") {
-                        hir_ok = rebuild_str(h).map_or(false, |h| to_sx(&h) == real_hir);
-                        cx.rep.branch("cfg:crlf-stepwise");
-                    }
-                }
+    // The model asks the external normaliser (regex-syntax's smart constructors) about at most two trees:
+    // the result of the `\r` pass under CRLF, and the final wrapped tree.  Answer by rebuilding them with
+    // the real constructors, and iterate until the table is complete.
+    let mut table: Vec<(String, String)> = vec![];
+    let mut reply = String::new();
+    let mut ask2 = "-".to_string();
+    for _round in 0..4 {
+        let tab: Vec<String> = table.iter().map(|(a, b)| format!("({} {})", a, b)).collect();
+        reply = cx.drv.ask(&format!("c11.build {} {} {} {} {} (norm {})", cfg, pats, tr_sx, acc as u8, opt, tab.join(" ")));
+        let mut asked: Vec<String> = vec![];
+        if let Some((_, r)) = reply.split_once(" ask1=") {
+            let (a1, rest) = match r.split_once(" ask2=") {
+                Some((a1, a2)) => (a1.to_string(), Some(a2.to_string())),
+                None => (r.to_string(), None),
+            };
+            asked.push(a1);
+            if let Some(a2) = rest {
+                ask2 = a2.clone();
+                asked.push(a2);
             }
         }
+        let mut changed = false;
+        for a in asked {
+            if a != "-" && !table.iter().any(|(k, _)| *k == a) {
+                match rebuild_str(&a) {
+                    Some(h) => table.push((a, to_sx(&h))),
+                    None => {
+                        cx.bad("impl_vs_model", "", TIE_CFG, format!("unparsable tree from the model: {}", a));
+                        return;
+                    }
+                }
+                changed = true;
+            }
+        }
+        if !changed {
+            break;
+        }
+    }
+    if table.iter().any(|(a, b)| a != b) {
+        cx.rep.branch("cfg:normaliser-changed-tree");
+    }
+    if table.len() == 2 {
+        cx.rep.branch("cfg:crlf-two-pass");
+    }
+    let mut hir_ok = true;
+    if let (Some(b), true) = (built, reply.starts_with("ok ")) {
+        let real_hir = to_sx(&b.parts.hir);
+        let model_hir = table.iter().find(|(k, _)| *k == ask2).map(|(_, v)| v.clone()).unwrap_or_default();
+        hir_ok = model_hir == real_hir;
         if !hir_ok {
             cx.bad("impl_vs_model", "", TIE_CFG, format!("final HIR: impl {} model {}", real_hir, model_hir));
         }
         // hypothesis `hnorm` of theorem C11 / C01_regex_faithful: the smart constructors preserve the
-        // denotation — compare the spans of the model's raw tree and of the real (normalised) tree
-        if hir_ok && real_hir.len() < 20000 {
-            if let Some((_, raw)) = rest.split_once(" raw=") {
-                let mut rng = Rng::new(fnv(raw.as_bytes()));
-                let mut srcs: Vec<&Hir> = vec![&b.parts.hir];
-                let hays = gen_hays(&mut srcs, o, &mut rng, false);
-                let uw = has_look(&b.parts.hir, &|l| is_unicode_word_look(l));
-                let word = if uw { word_table_sx() } else { "(word)" };
-                for hay in hays.iter().filter(|h| h.len() <= 10).take(4) {
-                    let a = cx.drv.ask(&format!("c11.spans {} {} {}", raw, hex(hay), word));
-                    let b2 = cx.drv.ask(&format!("c11.spans {} {} {}", real_hir, hex(hay), word));
-                    if a != b2 {
-                        cx.bad("impl_vs_model", "", "regex-syntax smart constructors preserve the denotation (hypothesis hnorm of C11)", format!("raw tree {} and normalised tree {} differ on {:?}: {} vs {}", raw, real_hir, show(hay), a, b2));
-                    }
-                    cx.rep.branch("norm:denotation-eq-checked");
+        // denotation — compare the spans of the model's raw trees and of their normalised forms
+        for (raw, nrm) in table.iter().filter(|(a, b)| a != b && b.len() < 20000) {
+            let mut rng = Rng::new(fnv(raw.as_bytes()));
+            let srcs: Vec<&Hir> = vec![&b.parts.hir];
+            let hays = gen_hays(&srcs, o, &mut rng, false);
+            let uw = has_look(&b.parts.hir, &|l| is_unicode_word_look(l));
+            let word = if uw { word_table_sx() } else { "(word)" };
+            for hay in hays.iter().filter(|h| h.len() <= 10).take(4) {
+                let x = cx.drv.ask(&format!("c11.spans {} {} {}", raw, hex(hay), word));
+                let y = cx.drv.ask(&format!("c11.spans {} {} {}", nrm, hex(hay), word));
+                if x != y {
+                    cx.bad("impl_vs_model", "", "regex-syntax smart constructors preserve the denotation (hypothesis hnorm of C11)", format!("raw tree {} and normalised tree {} differ on {:?}: {} vs {}", raw, nrm, show(hay), x, y));
                 }
+                cx.rep.branch("norm:denotation-eq-checked");
             }
         }
-        nrm = real_hir;
     }
-    // phase 2: everything derived from the normalised tree
-    let reply = if nrm == "-" { reply0 } else { cx.drv.ask(&format!("c11.build {} {} {} {} {} {}", cfg, pats, tr_sx, acc as u8, opt, nrm)) };
+    // the error reply carries ` ask1=…`: cut it off for the comparison of error kinds
+    let reply_core = reply.split(" ask1=").next().unwrap_or("").to_string();
     match (built, reply.strip_prefix("ok ")) {
         (Some(b), Some(rest)) => {
-            // ok lt=… nm=… lits=… raw=…
+            // ok lt=… nm=… lits=… ask1=… ask2=…
             let parts: Option<(&str, &str, &str)> = (|| {
                 let r = rest.strip_prefix("lt=")?;
                 let (lt, r) = r.split_once(" nm=")?;
                 let (nm, r) = r.split_once(" lits=")?;
-                let (lits, _) = r.split_once(" raw=")?;
+                let (lits, _) = r.split_once(" ask1=")?;
                 Some((lt, nm, lits))
             })();
             let Some((lt, nm, lits)) = parts else {
@@ -981,8 +1004,8 @@ fn config_checks(cx: &mut Ctx, c: &Case, built: &Option<Built>, err: &Option<Str
             cx.rep.branch("cfg:build-ok-eq");
         }
         (None, None) => {
-            if err.as_deref() != Some(reply.as_str()) {
-                cx.bad("impl_vs_model", "", TIE_CFG, format!("build error: impl {:?} model {}", err, reply));
+            if err.as_deref() != Some(reply_core.as_str()) {
+                cx.bad("impl_vs_model", "", TIE_CFG, format!("build error: impl {:?} model {}", err, reply_core));
             }
             cx.rep.branch("cfg:build-err-eq");
         }
@@ -995,7 +1018,7 @@ fn config_checks(cx: &mut Ctx, c: &Case, built: &Option<Built>, err: &Option<Str
             }
         }
         (Some(_), None) => {
-            cx.bad("impl_vs_model", "", TIE_CFG, format!("impl accepts, model rejects with {}", reply));
+            cx.bad("impl_vs_model", "", TIE_CFG, format!("impl accepts, model rejects with {}", reply_core));
         }
     }
 }
@@ -1303,6 +1326,28 @@ fn main() {
                 let line = case_line(&o, &[p.to_string()], &[]);
                 run_case(&line, &mut drv, &mut rep, args.thorough);
                 rep.branch("stream:smart-case");
+            }
+        }
+        // (c'') raw terminator bytes inside the pattern text itself (not escapes): the fixed-strings decision
+        // (`is_fixed_strings` / `has_line_terminator`) must send such patterns to the parser so that they are
+        // rejected; every terminator setting x -F on/off x -w/-x x pattern lists where only one has the byte
+        {
+            let lts: [(bool, Option<Option<u8>>); 4] = [(false, Some(Some(b'\n'))), (true, None), (false, Some(Some(0))), (true, Some(Some(0)))];
+            let raw_pats: [&str; 12] = ["a\rb", "a\r", "\r", "a\nb", "\n", "a\u{0}b", "\u{0}", "a\r\nb", "x.y\r", "[a]\r", "é\r", "ab"];
+            for (crlf, lt) in lts {
+                for fixed in [false, true] {
+                    for (word, whole) in [(false, false), (true, false), (false, true)] {
+                        for p in raw_pats {
+                            let o = Opts { crlf, lt, fixed, word, whole, ..Opts::default_rg() };
+                            for pats in [vec![p.to_string()], vec!["foo".to_string(), p.to_string()], vec![p.to_string(), "b.r".to_string()]] {
+                                let hays = vec![b"a\rb\r\nfoo\n".to_vec(), b"a\r\n".to_vec(), b"a\0b\0".to_vec(), b"x.y\r\nab\n".to_vec()];
+                                let line = case_line(&o, &pats, &hays);
+                                run_case(&line, &mut drv, &mut rep, args.thorough);
+                                rep.branch("stream:raw-terminator-in-pattern");
+                            }
+                        }
+                    }
+                }
             }
         }
         // (d) boundary / malformed
